@@ -56,10 +56,10 @@ PROPS = {
         "explanation": "Theorems: elem_size_eq_enc_len (every CBOR head width and the gap sizes), enc_len_data/meta/storable/enc_len (written bytes = reported size + extra data - 16 for an omitted sibling link), decoded_size_eq, no_uint16_truncation. Tie: the model's bytes must EQUAL EncodeSlab's bytes for every slab. Oracle: len(EncodeSlab) vs ByteSize on all slab kinds incl. maps and inlined children.",
     },
     "C07": {
-        "streams": ["codec", "malformed"], "driver": {"codec": "codec", "malformed": "codec"}, "level": "proof",
+        "streams": ["codec", "malformed", "nested"], "driver": {"codec": "codec", "malformed": "codec", "nested": "world"}, "level": "proof",
         "trusted_base": LEAN_TB, "assumptions": CODEC_ASSUME,
-        "rule": "as C06 plus hand-crafted version-0 forms of every register and ~30000 mutated registers; distinct = distinct registers",
-        "explanation": "Theorems: decode_encode_data/meta/storable/decode_encode, reencode_fixpoint, flags_truthful, decode_rejects_trailing(_meta), storable_accepts_trailing. Tie: model-decode(Go bytes) = dump and Go-decode = model dump; header queries on raw bytes. Oracle: Encode(Decode(reg)) == reg, flags vs content.",
+        "rule": "as C06 plus hand-crafted version-0 forms of every register and ~30000 mutated registers; distinct = distinct registers; nested: containers with repeated type infos read back from a fresh storage after commit",
+        "explanation": "Theorems: decode_encode_data/meta/storable/decode_encode, reencode_fixpoint, flags_truthful, decode_rejects_trailing(_meta), storable_accepts_trailing. Tie: model-decode(Go bytes) = dump and Go-decode = model dump; header queries on raw bytes. Oracle: Encode(Decode(reg)) == reg, flags vs content; nested stream: every container (inlined or not) read back from a brand-new storage has its values and its own type info (type-info references among inlined siblings).",
     },
     "C19": {
         "streams": ["malformed", "malformedall"], "driver": {"malformed": "codec"}, "level": "proof",
